@@ -1863,7 +1863,7 @@ func genC20(r *rng, tier string, emit func(string)) {
 			}
 			return 50
 		}
-		if name == "renegrefuse" { // connections: 1 + iters/4
+		if name == "renegrefuse" || name == "renegbig" { // connections: 1 + iters/4
 			if thorough {
 				return 40
 			}
